@@ -517,10 +517,11 @@ def toy_prop_cases(rng, tier):
         if c.n > (61 if thorough else 13):
             continue
         P = c.params()
-        zs = range(1, c.n + 1) if thorough or c.n <= 7 else [1, c.n, rng.randrange(1, c.n)]
+        full = c.n <= (13 if thorough else 7)
+        zs = range(1, c.n + 1) if full else [1, c.n, rng.randrange(1, c.n)]
         for z in zs:
             for r in range(0, c.n + 1):
-                for s in (range(0, c.n + 1) if thorough or c.n <= 7 else [1, r, rng.randrange(1, c.n)]):
+                for s in (range(0, c.n + 1) if full else [1, r, rng.randrange(1, c.n)]):
                     yield PropCase("toy_recover", {"curve": P, "z": z, "r": r, "s": s},
                                    (lambda P=P, z=z, r=r, s=s: chk_toy_recover(P, z, r, s)))
     for c in SMALL + BIG:
